@@ -378,6 +378,7 @@ def build_cases(tier):
     # the same evaluator object at two successive points: the filter's selection (and the active flags) may change
     add(mode="split", R=3, P=1, K=1, filters=(sort_filter(0, 1),), obj_filt=(0,), rounds=2)
     add(mode="functions", R=3, K=1, zero=(1,), filters=(sort_filter(0, 1),), obj_filt=(0,))   # a filter next to a configured zero weight
+    add(mode="both", R=3, P=1, K=1, zero=(1,), filters=(sort_filter(0, 1),), obj_filt=(0,))        # the same through a combined request
     add(mode="split", R=2, P=1, K=1, C=1, zero=(1,), filters=(sort_filter(0, 1),), obj_filt=(0,))   # objective filter only, constraints keep the configured weights
     add(mode="functions", R=2, K=1, C=1, nan_row=(0, 1, 1))
     add(mode="functions", R=2, K=1, C=1, nan_row=(0, 1, 0))
